@@ -105,3 +105,19 @@ Proof.
   cbv zeta. split; [reflexivity|]. split; [repeat constructor; discriminate|].
   split; [reflexivity|]. split; [vm_compute; auto|]. split; vm_compute; reflexivity.
 Qed.
+
+(* ---- about the regenerated _determine_dense_discrete_choice_axes (Gen/ChoiceAxes.v) ------------- *)
+From LCM Require Import Gen.ChoiceAxes Proofs.C18_ChoiceAxes.
+(* the axes reduced by the plain maximum are exactly the positions of the dense CHOICE variables in  *)
+(* the layout [sparse axis if any] ++ [dense variables that are not continuous choices, in the order  *)
+(* of variable_info]; None iff no dense variable of that layout is a choice                            *)
+Theorem C18_code_reduced_axes_are_the_dense_discrete_choices : forall vi : list varinfo,
+  NoDup (map vname vi) -> ~ In "__sparse__"%string (map vname vi) ->
+  match determine_dense_discrete_choice_axes vi with
+  | Some axes => axes <> nil /\
+                 forall i, In i axes <-> exists j, i = (offset vi + j)%nat /\ (j < length (dense_layout vi))%nat /\
+                                                  is_choice (nth j (dense_layout vi) d_var) = true
+  | None => forall j, (j < length (dense_layout vi))%nat -> is_choice (nth j (dense_layout vi) d_var) = false
+  end.
+Proof. exact choice_axes_spec. Qed.
+Print Assumptions C18_code_reduced_axes_are_the_dense_discrete_choices.
